@@ -25,7 +25,7 @@ type vfC14Kind struct {
 	JWKS   func(p *vfIdP) []byte
 	UInfo  func(c map[string]interface{})
 	AT     func(c map[string]interface{}) // Keycloak personality: alters the claims of the (JWT) access token
-	Need   string // must-reject applies only when the ID token lacks this claim (the profile endpoint is its only source)
+	Need   string                         // must-reject applies only when the ID token lacks this claim (the profile endpoint is its only source)
 }
 
 func vfAllFlows() map[string]bool { return map[string]bool{"*": true} }
@@ -74,7 +74,9 @@ func vfC14Kinds() []vfC14Kind {
 	tok("expires-in-negative", nil, func(m *vfMintCtx) { m.After = func(r map[string]interface{}) { r["expires_in"] = -5 } })
 	tok("expires-in-huge", nil, func(m *vfMintCtx) { m.After = func(r map[string]interface{}) { r["expires_in"] = 1e18 } })
 	tok("token-type-number", nil, func(m *vfMintCtx) { m.After = func(r map[string]interface{}) { r["token_type"] = 7 } })
-	tok("refresh-token-object", nil, func(m *vfMintCtx) { m.After = func(r map[string]interface{}) { r["refresh_token"] = map[string]interface{}{"a": 1} } })
+	tok("refresh-token-object", nil, func(m *vfMintCtx) {
+		m.After = func(r map[string]interface{}) { r["refresh_token"] = map[string]interface{}{"a": 1} }
+	})
 	tok("id-token-number", loginOnly, func(m *vfMintCtx) { m.Resp["id_token"] = 12345 })
 	tok("id-token-garbage", all, func(m *vfMintCtx) { m.Resp["id_token"] = "abc.def.ghi" })
 	tok("id-token-no-dots", all, func(m *vfMintCtx) { m.Resp["id_token"] = "not-a-compact-jws" })
@@ -129,10 +131,18 @@ func vfC14Kinds() []vfC14Kind {
 	at("realm-roles-numbers", func(c map[string]interface{}) { c["realm_access"] = map[string]interface{}{"roles": []int{1, 2}} })
 	at("resource-access-list", func(c map[string]interface{}) { c["resource_access"] = []int{1} })
 	at("resource-access-client-string", func(c map[string]interface{}) { c["resource_access"] = map[string]interface{}{"app": "x"} })
-	at("resource-roles-string", func(c map[string]interface{}) { c["resource_access"] = map[string]interface{}{"app": map[string]interface{}{"roles": "admin"}} })
-	at("resource-roles-object", func(c map[string]interface{}) { c["resource_access"] = map[string]interface{}{"app": map[string]interface{}{"roles": map[string]interface{}{"a": 1}}} })
-	at("resource-roles-list-of-objects", func(c map[string]interface{}) { c["resource_access"] = map[string]interface{}{"app": map[string]interface{}{"roles": []interface{}{map[string]interface{}{"a": 1}, nil, 3}}} })
-	at("resource-roles-null", func(c map[string]interface{}) { c["resource_access"] = map[string]interface{}{"app": map[string]interface{}{"roles": nil}} })
+	at("resource-roles-string", func(c map[string]interface{}) {
+		c["resource_access"] = map[string]interface{}{"app": map[string]interface{}{"roles": "admin"}}
+	})
+	at("resource-roles-object", func(c map[string]interface{}) {
+		c["resource_access"] = map[string]interface{}{"app": map[string]interface{}{"roles": map[string]interface{}{"a": 1}}}
+	})
+	at("resource-roles-list-of-objects", func(c map[string]interface{}) {
+		c["resource_access"] = map[string]interface{}{"app": map[string]interface{}{"roles": []interface{}{map[string]interface{}{"a": 1}, nil, 3}}}
+	})
+	at("resource-roles-null", func(c map[string]interface{}) {
+		c["resource_access"] = map[string]interface{}{"app": map[string]interface{}{"roles": nil}}
+	})
 	at("roles-absent", func(c map[string]interface{}) { delete(c, "realm_access"); delete(c, "resource_access") })
 	at("not-a-jwt", func(c map[string]interface{}) { c["__opaque"] = true })
 	ks = append(ks, vfC14Kind{Name: "jwks-empty", On: "jwks", Reject: all, JWKS: func(p *vfIdP) []byte { return []byte(`{"keys":[]}`) }})
